@@ -1637,4 +1637,38 @@ Proof.
     rewrite run_snd. split; [exact I2|]. split; [eapply ext_trans; eauto|]. simpl. auto.
 Qed.
 
+(* ------------------------------------------------------------------ derived objects start with an empty cache *)
+Lemma alloc_all_eq l : forall h, alloc_all K l h = (Ok tt, happ h l).
+Proof.
+  induction l as [|x r IH]; intros h; simpl.
+  - rewrite happ_nil. reflexivity.
+  - unfold bind, alloc. cbn [fst snd]. fold (happ h [x]). rewrite IH, happ_app. reflexivity.
+Qed.
+
+Definition no_handover (d : deriv) : Prop :=
+  match d with DAddLowRank _ _ _ _ | DCatRows _ _ _ _ _ => False | _ => True end.
+
+(* a derivation other than add_low_rank / cat_rows hands nothing over: the new operator is the freshly allocated object,
+   without a cache (in the dict or outside it), whatever the caches of self hold *)
+Lemma derived_starts_empty st i d kids res_ h o j h' :
+  no_handover d -> get i h = Some o ->
+  run_deriv K fl st i d kids res_ h = (Ok j, h') ->
+  get j h' = Some (mk_obj K res_ (deriv_mat K d (o_mat K o))) /\
+  o_memo K (mk_obj K res_ (deriv_mat K d (o_mat K o))) = None /\ o_adhoc K (mk_obj K res_ (deriv_mat K d (o_mat K o))) = None.
+Proof.
+  intros Nh G R. split; [|split; reflexivity].
+  set (ks := map (fun x => mk_obj K x (no_mat K x)) kids) in *.
+  set (rs := mk_obj K res_ (deriv_mat K d (o_mat K o))) in *.
+  assert (E : deriv_roots K fl st i d kids res_ h =
+              (Ok (List.length (h_objs K (happ h ks)), None), happ (happ h ks) [rs])).
+  { unfold deriv_roots, with_obj. unfold get in G. rewrite G. fold ks. fold rs.
+    unfold bind. rewrite alloc_all_eq. cbn [fst snd]. unfold alloc. cbn [fst snd].
+    destruct d; try contradiction; reflexivity. }
+  unfold run_deriv, bind in R. rewrite E in R.
+  assert (F : deriv_finish K fl st d (List.length (h_objs K (happ h ks)), None) (happ (happ h ks) [rs])
+              = (Ok (List.length (h_objs K (happ h ks))), happ (happ h ks) [rs]))
+    by (destruct d; reflexivity).
+  rewrite F in R. inversion R; subst. apply get_happ_last.
+Qed.
+
 End Proofs.
